@@ -36,10 +36,13 @@ CLAIMS = {
  'C11': ("All eleven exception-entry functions (undef, svc, smc, data abort, irq, fiq, hyp trap, enter_hyp/monitor_mode, "
          "exc_vector_base, take_reset) proved equal leaf-by-leaf to the B1.8/B1.9 pseudocode for every source mode, T/J/IT/AIF, "
          "SCTLR/SCR/HCR routing bits, extension configuration and PC.", "DESIGN.md 10 C11"),
- 'C12': ("cpsr_write_by_instr proved equal to the per-bit mask formulation of CPSRWriteByInstr and spsr_write_by_instr to "
-         "SPSRWriteByInstr for all values, byte masks, modes, security state, NMFI, SCR.AW/FW and extension configurations; system "
-         "opcodes are covered by the whole-step safety obligations (no host error, privilege confinement, failed condition no-op); "
-         "their functional rows and the entry/return round-trip lemma are not built yet.", "DESIGN.md 10 C12"),
+ 'C12': ("cpsr_write_by_instr / spsr_write_by_instr proved equal to CPSRWriteByInstr / SPSRWriteByInstr (per-bit mask formulation) for all "
+         "values, byte masks, modes, security state, NMFI, SCR.AW/FW and configurations; MRS, MSR (register/immediate, application and "
+         "system), CPS, SETEND, SUBS PC,LR (ARM A1/A2, Thumb), ERET, LDM (exception return), RFE, NOP/WFE/WFI by step-level functional "
+         "rows for every instruction word and state (User-mode UNKNOWN bits masked); the entry-then-return round trip (SVC, Undefined, "
+         "IRQ, FIQ, Data Abort from ARM and Thumb state, handler in ARM or Thumb) as a lemma over the two verified contracts. "
+         "Coprocessor gating, SMC/SVC routing and the mock hint hooks have safety obligations only. Known finding: MRS CPSR in "
+         "privileged modes returns only the APSR bits (pinned by a test).", "DESIGN.md 10 C12, 14.12"),
  'C13': ("mem_a_with_priv_get/set, mem_u_with_priv_get/set, the six wrappers (sizes 1,2,4,8) and fetch_instruction interpreted over an "
          "abstract translation (any PA, any fault pattern) and an abstract physical hub: per path the exact sequence of translations and "
          "hub accesses with address, size, privilege, direction and data, the returned value with CPSR.E reversal, alignment policy by "
@@ -68,15 +71,45 @@ CLAIMS = {
  'C19': ("Whole-step proof for every instruction word with CPSR.M = User: afterwards still User with A/I/F, all other modes' banked "
          "registers and SPSRs and every system register unchanged, or an architectural exception was entered with SPSR.M = User.",
          "DESIGN.md 10 C19"),
+ 'C02': ("Every single-register load/store encoding in the table (about 170: LDR/STR/LDRB/STRB/LDRH/STRH/LDRSB/LDRSH/LDRD/STRD, immediate, "
+         "literal, register and unprivileged forms, ARM A1/A2 and Thumb T1-T4) proved equal, leaf by leaf over the whole machine state and "
+         "the abstract memory (address, size, access kind, privilege, data of every access; write-back; loads to PC with interworking; "
+         "frame), to the ARM ARM decode+operation pseudocode for all instruction words of the class and all operand values with "
+         "wrap-around modulo 2^32; plus the abort clause (no register loaded or written back; LDRD destinations UNKNOWN). Exclusives, "
+         "TBB/TBH, PLD and the Thumb LDRD/unprivileged encodings have no row yet (safety obligations only).", "DESIGN.md 10 C02, 14"),
+ 'C03': ("LDM/STM in four addressing modes, PUSH/POP, LDM/STM (user registers), LDM (exception return): the execute() of each of the 15 "
+         "abstract classes verified with its register loop cut (head: start address and ascending order; inductive step for an arbitrary "
+         "register index, address, memory and register file; tail: PC slot, write-back, UNKNOWN cases, exception return), so for all 2^16 "
+         "lists; the step units prove for every encoding that decode hands that execute() the architectural registers/n/wback/"
+         "unaligned_allowed/increment/word_higher; SRS and RFE by step-level rows; PUSH;POP and STMDB;LDMIA round-trip lemmas over the two "
+         "contracts with a flat fault-free memory. Known finding: PUSH.W (T2) decoded with UnalignedAllowed=TRUE (pinned by a test).",
+         "DESIGN.md 14.7"),
+ 'C06': ("Whole-step exploration of all 256 ARM cubes (bits 27:20 fixed, every other bit symbolic = all 2^32 words): on every path the "
+         "selected class must own the word in the encoding table (decode.class) or the word is UNPREDICTABLE; every word that ends in the "
+         "Undefined Instruction exception without an opcode object is no valid encoding of any table row (decode.total); operand "
+         "extraction through the functional equality (post / decode.fields) and UNDEFINED rows never execute (post.unpred); decode "
+         "reads nothing but the word, ITSTATE and C (frame.own + the spec's own dependence). The table holds 510 of the 602 concrete "
+         "classes (data-processing, branches, load/store single and multiple, multiply/SIMD/saturating/bit-field, MRS/MSR/CPS/SETEND/"
+         "exception return/hints); the 92 classes without a row (exclusives, coprocessor, PLD, barriers, SVC/SMC/BKPT/UDF, TBB, "
+         "Thumb LDRD/unprivileged) are covered by the spec-free obligations only.", "DESIGN.md 14.8"),
+ 'C07': ("As C06 for Thumb: 58 16-bit cubes (bits 15:10) and 192 32-bit cubes (bits 31:21), inside and outside IT blocks (ITSTATE "
+         "symbolic); 32-bit detection by hw1<15:11> is part of the fetch contract proved in C13.", "DESIGN.md 14.8"),
+ 'C09': ("All multiply/divide (MUL, MLA, MLS, long, halfword, dual, most-significant-word, SDIV/UDIV), saturating (QADD.., SSAT/USAT, "
+         "SSAT16/USAT16), parallel add/subtract (S, Q, SH, U, UQ, UH x ADD16, ASX, SAX, SUB16, ADD8, SUB8), SEL, USAD8/USADA8, "
+         "extend and extend-and-add, BFC/BFI/SBFX/UBFX, PKH, REV*/RBIT, CLZ encodings (ARM A1 and Thumb T1/T2: 220 classes) proved equal, "
+         "leaf by leaf incl. N/Z, Q (sticky) and GE, to the pseudocode over exact integers for all operand values and parameters. "
+         "Products and quotients are abstracted by uninterpreted functions over canonical operands (sound for validity) and refined with "
+         "their exact definitions when the abstraction gives a counterexample. Known finding: BFI source bits (pinned by a test).",
+         "DESIGN.md 14.10"),
+ 'C20': ("Ownership/frame contracts: every step over every instruction word reads and writes only the instance's own state, the "
+         "configuration and immutable program constants (engine-tracked accesses to host objects outside the symbolic machine: "
+         "frame.own), and the interpreted subset is deterministic, so a step is a function of (configuration, state, memory) and steps "
+         "of instances that share no object commute; per-step scratch fields are leaves of the machine and are covered by the "
+         "functional equalities. Instance creation is a separate unit: ArmV6.__init__ rewrites the module-level configuration singleton "
+         "(known finding KF-CONFIG-SINGLETON, demonstrated natively with two configuration files).", "DESIGN.md 14.11"),
 }
 NOT_YET = {
- 'C02': 'functional rows of the load/store encodings not written yet (only address/data range preconditions and the uniform safety obligations exist); not claimed',
- 'C03': 'functional (lock-step) specification of block transfers and the PUSH;POP lemma not built yet; not claimed',
- 'C06': 'class-selection obligation exists only for the encodings that have a table row so far (about 180 of 603) and the UNDEFINED-space obligation needs the complete table; not claimed yet',
- 'C07': 'as C06 for Thumb; not claimed yet',
- 'C09': 'operation specs of the multiply/saturating/SIMD/bit-field family not written yet; not claimed',
  'C15': 'L4 units for VMSA translation not built yet',
- 'C20': 'frame/ownership units and the configuration-singleton finding not built yet',
 }
 
 
